@@ -127,7 +127,11 @@ fn read_u32_be(csr: &mut Cursor<Vec<u8>>) -> corez::io::Result<u32> {
 pub(crate) fn indices_from_minimal(p: Params, minimal: &[u8]) -> Option<Vec<u32>> {
     let c_bit_len = p.collision_bit_length();
     // Division is exact because k >= 3.
-    if minimal.len() != ((1 << p.k) * (c_bit_len + 1)) / 8 {
+    let expected_len = 1usize
+        .checked_shl(p.k)
+        .and_then(|num_indices| num_indices.checked_mul(c_bit_len + 1))?
+        / 8;
+    if minimal.len() != expected_len {
         return None;
     }
 
